@@ -20,7 +20,7 @@ assume-func github.com/iotaledger/hive.go/ds/shrinkingmap.Options.apply(so, opts
   modifies so.shrinkingThresholdRatio, so.shrinkingThresholdCount
 
 func New
-  ensures r0 != nil && fresh(r0) && r0.m != nil && unlocked(r0.mutex)
+  ensures r0 != nil && fresh(r0) && r0.m != nil && r0.opts != nil && unlocked(r0.mutex)
   ensures forall k K :: !has(r0.m, k)
 
 func ShrinkingMap.shouldShrink
